@@ -31,14 +31,14 @@ ADV = [0, 1, 500, 999, 1000, 1001, 5000, 9999, 10000, 10001, 60000, 843750, 1124
 
 def floors(tier):
     q = tier == "quick"
-    return {"c04.alternate": 3000 if q else 300000, "c04.live_equals_cache": 6000 if q else 600000, "c04.visible_in_add": 500 if q else 40000}
+    return {"c04.alternate": 30000 if q else 3000000, "c04.live_equals_cache": 60000 if q else 6000000, "c04.visible_in_add": 5000 if q else 400000}
 
 
 def plan(tier, seed):
     if tier == "quick":
-        n, per = 16, 40
+        n, per = 16, 400
     else:
-        n, per = 64, 1500
+        n, per = 64, 12000
     return [{"seed": seed, "shard": i, "per": per, "tier": tier} for i in range(n)]
 
 
